@@ -192,6 +192,19 @@ Theorem src_dispatch_stateless :
 Proof. exact dispatch_stateless_src. Qed.
 Print Assumptions src_dispatch_stateless.
 
+(* the dispatch forms no product or quotient of the count in INDEX_T: every backend receives nTasks itself, the only
+   arithmetic of the OpenMP / Debug loops is ++taskIndex (which stays below nTasks).  So nothing in parallel_for_impl can
+   wrap for any n of any index type — in contrast to a chunked dispatch n*c/k (Properties.chunk_bounds_wrap_refuted) *)
+Theorem src_dispatch_arith_free :
+  call_args_arith_free src_impl_tbb_int = true /\ call_args_arith_free src_impl_tbb_size_t = true /\
+  call_args_arith_free src_impl_internal_int = true /\ call_args_arith_free src_impl_internal_size_t = true /\
+  loop_arith src_impl_omp_int = Some (true, [Asg "taskIndex" (Bin Add I32 (Var "taskIndex") (Lit 1))]) /\
+  loop_arith src_impl_omp_size_t = Some (true, [Asg "taskIndex" (Bin Add U64 (Var "taskIndex") (Lit 1))]) /\
+  loop_arith src_impl_debug_int = Some (true, [Asg "taskIndex" (Bin Add I32 (Var "taskIndex") (Lit 1))]) /\
+  loop_arith src_impl_debug_size_t = Some (true, [Asg "taskIndex" (Bin Add U64 (Var "taskIndex") (Lit 1))]).
+Proof. exact dispatch_arith_free_src. Qed.
+Print Assumptions src_dispatch_arith_free.
+
 (* ================================================================== no uint32_t wrap *)
 (* every range a reachable state holds (queued, held, still to be cut) lies inside [0, n] ... *)
 Theorem enki_ranges_bounded : forall p t0 s, wf_params p -> reachable p t0 s -> bounded p s.
